@@ -379,6 +379,9 @@ struct CommandBuilderOptions {
     action: ExecAction,
     env: HashMap<OsString, OsString>,
     limiters: LimiterCollection,
+    /// The limiters before the command and initial arguments were charged to them
+    /// (replace mode re-measures the command line after substitution).
+    base_limiters: LimiterCollection,
     verbose: bool,
     close_stdin: bool,
     replace: Option<String>,
@@ -395,6 +398,7 @@ impl CommandBuilderOptions {
             ExecAction::Echo => vec![OsStr::new("echo")],
         };
 
+        let base_limiters = limiters.clone();
         for arg in initial_args {
             limiters.try_arg(Argument {
                 arg: arg.to_owned(),
@@ -406,6 +410,7 @@ impl CommandBuilderOptions {
             action,
             env,
             limiters,
+            base_limiters,
             verbose: false,
             close_stdin: false,
             replace,
@@ -428,7 +433,47 @@ impl CommandBuilder<'_> {
         }
     }
 
+    /// The initial arguments (without the command itself) with every occurrence of the
+    /// replace string replaced by `replacement`.
+    fn replaced_initial_args(
+        initial_args: &[OsString],
+        replace_str: &str,
+        replacement: &OsStr,
+    ) -> Vec<OsString> {
+        let replacement = replacement.to_string_lossy();
+        initial_args
+            .iter()
+            .map(|arg| {
+                let arg_str = arg.to_string_lossy();
+                OsString::from(arg_str.replace(replace_str, &replacement))
+            })
+            .collect()
+    }
+
     fn add_arg(&mut self, arg: Argument) -> Result<(), ExhaustedCommandSpace> {
+        if let (Some(replace_str), ExecAction::Command(args)) =
+            (&self.options.replace, &self.options.action)
+        {
+            // In replace mode the line is substituted into the initial arguments instead of
+            // being appended: it is the command line after substitution that has to fit.
+            let mut limiters = self.options.base_limiters.clone();
+            let mut command_line = vec![args[0].clone()];
+            command_line.extend(Self::replaced_initial_args(
+                &args[1..],
+                replace_str,
+                &arg.arg,
+            ));
+            for replaced in command_line {
+                let fits = limiters.try_arg(Argument {
+                    arg: replaced,
+                    kind: ArgumentKind::Initial,
+                });
+                if let Err(ExhaustedCommandSpace { out_of_chars, .. }) = fits {
+                    return Err(ExhaustedCommandSpace { arg, out_of_chars });
+                }
+            }
+        }
+
         let arg = self.limiters.try_arg(arg)?;
         self.extra_args.push(arg.arg);
         Ok(())
@@ -453,14 +498,8 @@ impl CommandBuilder<'_> {
         if let Some(replace_str) = &self.options.replace {
             // Replace all occurrences in initial args with the extra arg,
             // Thanks to `MaxArgsCommandSizeLimiter`, we only process a single extra arg here.
-            let replacement = self.extra_args[0].to_string_lossy();
-            let initial_args: Vec<OsString> = initial_args
-                .iter()
-                .map(|arg| {
-                    let arg_str = arg.to_string_lossy();
-                    OsString::from(arg_str.replace(replace_str, &replacement))
-                })
-                .collect();
+            let initial_args =
+                Self::replaced_initial_args(initial_args, replace_str, &self.extra_args[0]);
 
             command
                 .args(&initial_args)
